@@ -17,7 +17,7 @@ pub struct C19;
 const LIMIT: Duration = Duration::from_secs(20);
 
 /// fault name -> shell script body of the `rustfmt` stub (None = no stub: PATH holds an empty directory only)
-pub const FAULTS: [(&str, Option<&str>); 19] = [
+pub const FAULTS: [(&str, Option<&str>); 21] = [
     ("absent", None),
     ("exit1-after-reading", Some("cat >/dev/null\nexit 1\n")),
     ("exit1-without-reading", Some("exit 1\n")),
@@ -46,6 +46,10 @@ pub const FAULTS: [(&str, Option<&str>); 19] = [
     ("drops-the-last-item", Some("sed 's/pub fn create_pipeline_layout.*$//'\nexit 0\n")),
     ("appends-an-item", Some("cat\nprintf ' pub fn extra_item ( ) { }\\n'\nexit 0\n")),
     ("renames-an-identifier", Some("sed 's/create_shader_module/create_shader_modul3/g'\nexit 0\n")),
+    // formatters that only change the CONTENT of a string literal (the embedded WGSL source): a marker that occurs nowhere but in a
+    // comment of the shader, and every non-ASCII byte (an encoding-unclean formatter); identity on shaders without them
+    ("rewrites-string-literal-content", Some("sed 's/ZQXJ/ZQXK/g'\nexit 0\n")),
+    ("mangles-non-ascii-bytes", Some("LC_ALL=C tr '\\200-\\377' '?'\nexit 0\n")),
 ];
 
 /// Canonical token text: trailing commas before a closing delimiter dropped.
@@ -113,6 +117,8 @@ fn shaders(seed: u64, tier: Tier) -> Vec<(String, String)> {
     let mut v = vec![
         ("tiny".to_string(), "@fragment\nfn main() {}\n".to_string()),
         ("big-8x24".to_string(), big_shader(8, 24)),
+        // text that reaches the output ONLY inside the SOURCE string literal (comment, local names)
+        ("marker-in-comment".to_string(), "// ZQXJ gr\u{fc}\u{df}e st\u{e4}rke\n@fragment\nfn main() { let zqxj_st\u{e4}rke = 1.0; }\n".to_string()),
     ];
     let mut rng = Rng::new(seed, 0xC19);
     let extra = if tier == Tier::Quick { 1 } else { 6 };
